@@ -173,11 +173,30 @@ static void run_case(const std::string &line) {
       if (st.size() == 4) n->SetProductInformation(st[3], 666, st[0], st[1], st[2], 1, 2101, 0);
       for (size_t i = 0; i < st.size(); i++) free(st[i]);
     }
+    if (kv.count("pprod")) {         // pprod=<hex model id>,<hex software code>,<hex model version>,<hex serial code>: SetProductInformation(const tProductInformation *)
+      std::vector<std::string> st;  // (the pointer variant: the library keeps the pointer and builds PGN 126996 with SetN2kPGN126996Progmem)
+      std::string c = kv["pprod"]; size_t pos = 0;
+      while (st.size() < 4) {
+        size_t e = c.find(',', pos); std::string h = c.substr(pos, e == std::string::npos ? std::string::npos : e - pos);
+        if (h == "-") h = "";
+        std::string b;
+        for (size_t i = 0; i + 1 < h.size(); i += 2) b.push_back((char)strtoul(h.substr(i, 2).c_str(), 0, 16));
+        st.push_back(b);
+        if (e == std::string::npos) break;
+        pos = e + 1;
+      }
+      if (st.size() == 4) {
+        tNMEA2000::tProductInformation *pi = new tNMEA2000::tProductInformation();     // lives as long as the node
+        pi->Set(st[3].c_str(), 666, st[0].c_str(), st[1].c_str(), st[2].c_str(), 1, 2101, 0);
+        n->SetProductInformation(pi);
+      }
+    }
     if (kv.count("pconf")) {         // pconf=<hex inst1>,<hex inst2>,<hex manufacturer>: SetProgmemConfigurationInformation (the strings stay where they are: never freed)
       std::vector<char *> st;
       std::string c = kv["pconf"]; size_t pos = 0;
       while (st.size() < 3) {
         size_t e = c.find(',', pos); std::string h = c.substr(pos, e == std::string::npos ? std::string::npos : e - pos);
+        if (h == "~") { st.push_back((char *)0); if (e == std::string::npos) break; pos = e + 1; continue; }   // ~ = null pointer
         if (h == "-") h = "";
         char *b = (char *)malloc(h.size() / 2 + 1);
         for (size_t i = 0; i + 1 < h.size(); i += 2) b[i / 2] = (char)strtoul(h.substr(i, 2).c_str(), 0, 16);
@@ -192,6 +211,7 @@ static void run_case(const std::string &line) {
       std::string c = kv["conf"]; size_t pos = 0;
       while (st.size() < 3) {
         size_t e = c.find(',', pos); std::string h = c.substr(pos, e == std::string::npos ? std::string::npos : e - pos);
+        if (h == "~") { st.push_back((char *)0); if (e == std::string::npos) break; pos = e + 1; continue; }   // ~ = null pointer (the string is not given)
         if (h == "-") h = "";
         char *b = (char *)malloc(h.size() / 2 + 1);
         for (size_t i = 0; i + 1 < h.size(); i += 2) b[i / 2] = (char)strtoul(h.substr(i, 2).c_str(), 0, 16);
